@@ -138,7 +138,7 @@ P('C12', 'other', ['func.func_basis', 'func.func_sum', 'sig.func', 'sig.func_ful
   'oracle for coefficients, evaluation, integration, differentiation, TT vs dense.',
   NOTE_T1 + NOTE_T3, 'deductive VCs + cited approximation-theory lemmas + bounded exact-polynomial oracle', [])
 
-P('C13', 'other', ['anova.ANOVA.cores_1', 'sig.anova', 'sig.anova_func'], 5, [],
+P('C13', 'other', ['anova.ANOVA.cores_1', 'anova.ANOVA.pair_num_to_num', 'anova.ANOVA.cores_2.pairing', 'sig.anova', 'sig.anova_func'], 5, [],
   'Contract-based: the 2x2 core pattern of ANOVA.cores_1 and its chain value f0 + sum f1_k. Bounded: conditional means, order 2, '
   'noise, sparse subsets, functional variant.', NOTE_T1 + NOTE_T3, 'deductive VCs + bounded run-time contracts', [])
 
